@@ -51,7 +51,8 @@ def finish_acc(acc):
 def run_sessions(spec: dict, prop: str, make_monitors: Callable[[], list],
                  cfg_fn: Callable[[random.Random], gen.Config], nsteps: tuple[int, int],
                  weights=None, refusal_rate: float = 1.0, budget_s: float | None = None,
-                 weights_fn=None, opgen=None, history_share: float = 0.0) -> dict:
+                 weights_fn=None, opgen=None, history_share: float = 0.0, tail=None,
+                 tail_share: float = 0.0) -> dict:
     rng = random.Random(spec["seed"])
     acc = new_acc()
     t0 = time.time()
@@ -80,7 +81,9 @@ def run_sessions(spec: dict, prop: str, make_monitors: Callable[[], list],
         ns = rng.randint(*nsteps) * (2 if large else 1)
         try:
             sess = session.run_random_session(cfg, monitors, sseed, ns, weights=w,
-                                              refusal_rate=refusal_rate, opgen=opgen)
+                                              refusal_rate=refusal_rate, opgen=opgen,
+                                              tail=tail if tail and rng.random() < tail_share
+                                              else None)
         except Exception:
             import traceback
 
